@@ -536,6 +536,48 @@ pub fn c18(tier: Tier) -> i32 {
     ctx.finish(&acc, "model_checking")
 }
 
+
+/// C15: the converter as an entry point — every multiset of at most k rows of the C18 row alphabet, in every row order,
+/// with and without an awards file: `convert` must return (a result or an error), never panic.
+pub fn c15_row_sequences(ctx: &Ctx, k: usize) -> Acc {
+    let alphabet = row_alphabet();
+    let n = alphabet.len();
+    let mut seqs: Vec<Vec<usize>> = vec![];
+    fn gen_rows(n: usize, k: usize, cur: &mut Vec<usize>, out: &mut Vec<Vec<usize>>) {
+        if !cur.is_empty() {
+            out.push(cur.clone());
+        }
+        if cur.len() == k {
+            return;
+        }
+        let start = *cur.last().unwrap_or(&0);
+        for i in start..n {
+            cur.push(i);
+            gen_rows(n, k, cur, out);
+            cur.pop();
+        }
+    }
+    gen_rows(n, k, &mut vec![], &mut seqs);
+    seqs.par_iter()
+        .fold(Acc::new, |mut acc, idx| {
+            let rows: Vec<&Row> = idx.iter().map(|&i| &alphabet[i]).collect();
+            acc.states += 1;
+            for p in perms(idx.len()) {
+                let pr: Vec<&Row> = p.iter().map(|&i| rows[i]).collect();
+                for awards in [true, false] {
+                    acc.validated += 1;
+                    acc.bump("transitions");
+                    acc.bump("converter:row-sequences");
+                    if let Err(m) = convert(&pr, awards) {
+                        acc.violation(&ctx.findings, "C15", Violation { clause: "panic".into(), input: Input::Json(export_json(&pr)), detail: format!("SchwabConverter::convert panicked: {m}"), context: json!({"profile": "converter-row-sequences", "awards_file": awards}) });
+                    }
+                }
+            }
+            acc
+        })
+        .reduce(Acc::new, Acc::merge)
+}
+
 // ------------------------------------------------------------------------------------------------ C19
 
 pub fn c19(tier: Tier) -> i32 {
@@ -553,8 +595,13 @@ pub fn c19(tier: Tier) -> i32 {
         VestValueOnly,
         /// the same record also carrying the fallback price: the vest value is preferred
         VestValueAndFallbackInOneRecord,
+        /// one awards entry (dated three days after the vest) with two detail records: a fallback-price-only record,
+        /// then the record carrying VestDate + VestFairMarketValue — the entry's vest date and value are the latter's
+        MultiRecordFallbackThenVest,
+        /// the same two records the other way round
+        MultiRecordVestThenFallback,
     }
-    let pats = [Pat::AllVest, Pat::AllFallback, Pat::Alternate, Pat::BothVestFirst, Pat::BothFallbackFirst, Pat::VestValueOnly, Pat::VestValueAndFallbackInOneRecord];
+    let pats = [Pat::AllVest, Pat::AllFallback, Pat::Alternate, Pat::BothVestFirst, Pat::BothFallbackFirst, Pat::VestValueOnly, Pat::VestValueAndFallbackInOneRecord, Pat::MultiRecordFallbackThenVest, Pat::MultiRecordVestThenFallback];
     let jobs: Vec<(NaiveDate, u32)> = deposits.iter().flat_map(|d| (0..(1u32 << offsets.len())).map(move |m| (*d, m))).collect();
     let ctxr: &Ctx = &ctx;
     let mut acc = jobs
@@ -585,6 +632,8 @@ pub fn c19(tier: Tier) -> i32 {
                                 entries.push(fb);
                                 entries.push(vest);
                             }
+                            Pat::MultiRecordFallbackThenVest => entries.push(json!({"Date": us(d + CDuration::days(3)), "Action": "Lapse", "Symbol": sym_file, "TransactionDetails": [{"Details": {"FairMarketValuePrice": format!("${}", fb_val(*o))}}, {"Details": {"VestDate": us(d), "VestFairMarketValue": format!("${}", vest_val(*o))}}]})),
+                            Pat::MultiRecordVestThenFallback => entries.push(json!({"Date": us(d + CDuration::days(3)), "Action": "Lapse", "Symbol": sym_file, "TransactionDetails": [{"Details": {"VestDate": us(d), "VestFairMarketValue": format!("${}", vest_val(*o))}}, {"Details": {"FairMarketValuePrice": format!("${}", fb_val(*o))}}]})),
                             Pat::VestValueOnly => entries.push(json!({"Date": us(d), "Action": "Lapse", "Symbol": sym_file, "TransactionDetails": [{"Details": {"VestFairMarketValue": format!("${}", vest_val(*o))}}]})),
                             Pat::VestValueAndFallbackInOneRecord => entries.push(json!({"Date": us(d), "Action": "Lapse", "Symbol": sym_file, "TransactionDetails": [{"Details": {"VestFairMarketValue": format!("${}", vest_val(*o)), "FairMarketValuePrice": format!("${}", fb_val(*o))}}]})),
                         }
@@ -595,7 +644,7 @@ pub fn c19(tier: Tier) -> i32 {
                     }
                     let exp_off: Option<i64> = if present.contains(&0) { Some(0) } else { present.iter().copied().filter(|o| (-7..=-1).contains(o)).max() };
                     let is_vest = |o: i64| match pat {
-                        Pat::AllVest | Pat::BothVestFirst | Pat::BothFallbackFirst | Pat::VestValueOnly | Pat::VestValueAndFallbackInOneRecord => true,
+                        Pat::AllVest | Pat::BothVestFirst | Pat::BothFallbackFirst | Pat::VestValueOnly | Pat::VestValueAndFallbackInOneRecord | Pat::MultiRecordFallbackThenVest | Pat::MultiRecordVestThenFallback => true,
                         Pat::AllFallback => false,
                         Pat::Alternate => o.rem_euclid(2) == 0,
                     };
